@@ -1,5 +1,5 @@
 #!/usr/bin/env python3
-"""seedtable.py sweep [-j N]  : run every seeded change against its target property's quick check (scratch copies)
+"""seedtable.py sweep [-j N] [<change> ...] : run every seeded change against its target property's quick check (scratch copies)
    seedtable.py table         : print the markdown table of DESIGN.md section 11 from seeded/*/meta.json + verdicts.json"""
 import concurrent.futures
 import glob
@@ -16,8 +16,10 @@ def target(d):
     return m.get("breaks_property") or m.get("property")
 
 
-def sweep(jobs):
+def sweep(jobs, only=()):
     ds = sorted(glob.glob(os.path.join(V, "seeded", "*-m*")))
+    if only:
+        ds = [d for d in ds if os.path.basename(d) in only]
 
     def one(d):
         p = subprocess.run("python3 tools/seedtest.py run %s %s" % (d, target(d)), shell=True, cwd=V,
@@ -59,6 +61,7 @@ def table():
 
 if __name__ == "__main__":
     if sys.argv[1] == "sweep":
-        sweep(int(sys.argv[sys.argv.index("-j") + 1]) if "-j" in sys.argv else 4)
+        sweep(int(sys.argv[sys.argv.index("-j") + 1]) if "-j" in sys.argv else 4,
+              only=[a for a in sys.argv[2:] if "-m" in a])
     else:
         table()
